@@ -7,13 +7,17 @@ from ..common import REPO, repo_files
 from ..containers import state
 
 n_decoded = 0
+n_extra = [0, 0, 0, 0, 0]
+N_CELLS, N_OFFSETS, N_CONDS, N_HEADERS, N_DEFINERS = 5903, 5006, 453, 1522, 358
 EXPLANATION = (
     "Every wowm block embedded in a generated Rust doc comment and in every documentation page is parsed back with the "
     "independent wowm parser and compared with the source object its link names (file:line): kind, name, opcode, base type, "
     "enumerators and values, member order, types, upcasts, array kinds, constant values, if / else-if / else conditions and "
     "optional blocks. Each page's body tables must list exactly the definition's members in definition order with the size and "
     "endianness of fixed-width built-ins; each documented example's byte groups must concatenate to the bytes of the wowm test "
-    "it renders and its top-level field comments must follow definition order. All pages, comments and examples are covered."
+    "it renders and its top-level field comments must follow definition order. Beyond the member names every row's size and type cell, the "
+    "offset cells of the constant prefix, the branch headings, the header section and the enumerator tables of enum / flag pages are "
+    "compared with the definition. All pages, comments and examples are covered."
 )
 DOCS = os.path.join(REPO, "wowm_language", "src", "docs")
 RS_DIRS = ["wow_world_messages/src/world", "wow_login_messages/src/logon", "wow_world_base/src/inner"]
@@ -93,6 +97,297 @@ FIXED = {"u8": (1, "-"), "i8": (1, "-"), "u16": (2, "Little"), "i16": (2, "Littl
          "IpAddress": (4, "Big"), "DateTime": (4, "Little"), "Bool32": (4, "Little"), "Population": (4, "Little"), "Level": (1, "-"), "Bool": (1, "-")}
 
 
+
+# ----------------------------------------------------------------------------------------------
+# body table cells beyond the name: size, type, offsets of the constant prefix; header section; condition prose; definer tables
+# ----------------------------------------------------------------------------------------------
+LINKCELL = re.compile(r"^\[([^\]]+)\]\([^)]*\)(.*)$")
+
+
+def _scope_lookup(idx, cur):
+    objs = idx.objs_of.get(id(cur))
+    if not objs:
+        return None, None
+    model = idx.model
+    sec = idx.section
+    if sec:
+        kind, vs = sec
+        for v in vs:
+            for o in objs:
+                if kind == "world" and o.world_versions and (v == ("*",) or any(wowm.world_overlaps(w, v) for w in o.world_versions)):
+                    v2 = next((w for w in o.world_versions if wowm.world_overlaps(w, v)), o.world_versions[0]) if v != ("*",) else o.world_versions[0]
+                    return o, (lambda name, v2=v2: model.lookup_world(name, v2))
+                if kind == "login" and o.login_versions and (v == "*" or any(wowm.login_covers(w, v) for w in o.login_versions)):
+                    v2 = v if v != "*" else o.login_versions[0]
+                    return o, (lambda name, v2=v2: model.lookup_login(name, v2))
+    obj = objs[0]
+    if obj.world_versions:
+        v = obj.world_versions[0]
+        return obj, (lambda name: model.lookup_world(name, v))
+    v = obj.login_versions[0]
+    return obj, (lambda name: model.lookup_login(name, v))
+
+
+def _decl_size(rl, calc, m_, decls):
+    """(lo, hi) of one declared member by the independent size calculation"""
+    its = rl.members([m_], dict(decls))
+    return calc.item(its[0], dict(decls))
+
+
+def _type_cell_name(cell):
+    m = LINKCELL.match(cell)
+    if m:
+        return m.group(1) + m.group(2)
+    return cell
+
+
+def _want_type(m_):
+    if m_.array is None:
+        return m_.ty
+    c = m_.array
+    return f"{m_.ty}[{c[1] if c[0] != 'endless' else '-'}]"
+
+
+BUILTIN_DOC_NAME = {"MonsterMoveSplines": "MonsterMoveSpline"}
+
+
+def check_row_cells(ctx, idx, cur, rows, want, rel, fn):
+    """size cell of every row (constant size or '-', '?' for arrays of unknown size) and type cell; returns per-member constant size or None"""
+    obj, lookup = _scope_lookup(idx, cur)
+    if lookup is None:
+        return None
+    rl = wowm.RefLayouts(idx.model, lookup)
+    calc = wowm.SizeCalc(rl, 0xFFFF)
+    decls = {}
+    try:
+        rl.members(cur.members, decls)
+    except wowm.WowmError:
+        return None
+    sizes = {}
+    n = 0
+    for (cells, ln), m_ in zip(rows, want):
+        try:
+            lo, hi = _decl_size(rl, calc, m_, decls)
+        except (wowm.WowmError, KeyError):
+            continue
+        const = lo if lo == hi else None
+        sizes[m_.name] = const
+        got = cells[1].split("/")[0].strip()
+        exp = str(const) if const is not None else ("?" if m_.array is not None else "-")
+        n += 1
+        if got != exp:
+            ctx.violate("doc.cells", f"page|{fn}|{cur.name}|{cur.line}|{m_.name}|sizecell",
+                        f"{rel}: body table of {cur.name}: `{m_.name}` ({_want_type(m_)}) is documented with size `{got}`, its encoding has {('a constant ' + str(const) + ' bytes') if const is not None else 'no constant size'}", rel, ln)
+        tname = _type_cell_name(cells[2])
+        wt = _want_type(m_)
+        if m_.array is None:
+            wt = BUILTIN_DOC_NAME.get(wt, wt)
+        if tname.replace(" ", "") != wt.replace(" ", ""):
+            ctx.violate("doc.cells", f"page|{fn}|{cur.name}|{cur.line}|{m_.name}|typecell",
+                        f"{rel}: body table of {cur.name}: `{m_.name}` is documented with type `{tname}`, the definition has `{_want_type(m_)}`", rel, ln)
+    return sizes
+
+
+def _is_wrath(obj, idx=None):
+    return bool(obj) and any(wowm.world_overlaps(w, wowm.EXPANSIONS["wrath"]) for w in (obj.world_versions or []))
+
+
+def _container_const(idx, cur):
+    obj, lookup = _scope_lookup(idx, cur)
+    if lookup is None:
+        return None
+    try:
+        lo, hi = wowm.SizeCalc(wowm.RefLayouts(idx.model, lookup), 0xFFFF).container(cur)
+    except (wowm.WowmError, KeyError):
+        return None
+    return lo == hi
+
+
+def body_start_offset(idx, cur, sizes_const):
+    k = cur.kind
+    if k == "struct":
+        return 0
+    if k == "msg":
+        return 0
+    if k == "cmsg":
+        return 6
+    if k == "smsg":
+        obj = _scope_lookup(idx, cur)[0]
+        wrath = _is_wrath(obj)
+        if wrath and not sizes_const:
+            return None
+        return 4
+    return 1  # login
+
+
+def check_offsets(ctx, idx, cur, rows, want, sizes, rel, fn):
+    """offsets of the constant prefix: the top-level members in front of the first conditional / optional block and, when all of them have a
+    constant size, the members of the first arm of a directly following if statement.  Further rows depend on the branch taken and are not
+    compared."""
+    if sizes is None:
+        return 0
+    seq = []
+    first_if = None
+    for m_ in cur.members:
+        if isinstance(m_, wowm.Decl):
+            seq.append(m_)
+        else:
+            first_if = m_
+            break
+    if isinstance(first_if, wowm.If) and first_if.arms:
+        for a_ in first_if.arms[0][1]:
+            if isinstance(a_, wowm.Decl):
+                seq.append(a_)
+            else:
+                break
+    cc = _container_const(idx, cur)
+    if cc is None:
+        return 0
+    off = body_start_offset(idx, cur, cc)
+    by_name = {c[0][3]: (c[0], c[1]) for c in rows}
+    n = 0
+    for m_ in seq:
+        if m_.name not in by_name or m_.name not in sizes:
+            break
+        cells, ln = by_name[m_.name]
+        exp = f"0x{off:02X}" if off is not None else "-"
+        n += 1
+        if cells[0] != exp:
+            ctx.violate("doc.offsets", f"page|{fn}|{cur.name}|{cur.line}|{m_.name}|offset",
+                        f"{rel}: body table of {cur.name}: `{m_.name}` is documented at offset `{cells[0]}`, the members in front of it put it at `{exp}`", rel, ln)
+            break
+        if off is not None:
+            off = off + sizes[m_.name] if sizes[m_.name] is not None else None
+    return n
+
+
+HEADER_ROWS = {
+    "cmsg": [("0x00", "2/Big", "uint16", "size"), ("0x02", "4/Little", "uint32", "opcode")],
+    "smsg": [("0x00", "2/Big", "uint16", "size"), ("0x02", "2/Little", "uint16", "opcode")],
+    "smsg3": [("0x00", "2**OR**3/Big", "uint16**OR**uint16+uint8", "size"), ("-", "2/Little", "uint16", "opcode")],
+    "login": [("0x00", "1/-", "uint8", "opcode")],
+}
+HEADER_SENTENCE = {"cmsg": "CMSG have a header of 6 bytes.", "smsg": "SMSG have a header of 4 bytes.",
+                   "msg": "MSG have a header of either 6 bytes if they are sent from the client (CMSG), or 4 bytes if they are sent from the server (SMSG).",
+                   "login": "Login messages have a header of 1 byte with an opcode."}
+
+
+def check_header_section(ctx, idx, cur, lines, i, rel, fn):
+    """`### Header` of a message page: the sentence and the header tables are those of the container kind (and the Wrath 2-or-3 byte form
+    exactly for server messages valid in 3.3.5 whose size is not constant)"""
+    j = i + 1
+    sent = None
+    tables = {}
+    curtab = None
+    while j < len(lines) and not lines[j].startswith("### "):
+        l = lines[j]
+        if l.startswith("#### "):
+            curtab = l[5:].strip()
+            tables[curtab] = []
+        elif l.startswith("|") and curtab and not l.startswith("| Offset") and not l.startswith("| ---"):
+            cells = [c.strip() for c in l.strip().strip("|").split("|")]
+            tables[curtab].append(tuple(c.replace(" ", "") for c in cells[:4]))
+        elif l.strip() and sent is None and not l.startswith("|"):
+            sent = l.strip()
+        j += 1
+    kind = cur.kind if cur.kind in ("cmsg", "smsg", "msg") else "login"
+    key = f"page|{fn}|{cur.name}|{cur.line}|header"
+    if sent is None or not sent.startswith(HEADER_SENTENCE[kind]):
+        ctx.violate("doc.header", key + "|sentence", f"{rel}: header section of {cur.name} ({kind}) says `{sent}`", rel, i + 1)
+    want = {}
+    if kind in ("cmsg", "msg"):
+        want["CMSG Header"] = HEADER_ROWS["cmsg"]
+    if kind in ("smsg", "msg"):
+        obj, lookup = _scope_lookup(idx, cur)
+        three = False
+        if _is_wrath(obj):
+            cc = _container_const(idx, cur)
+            three = None if cc is None else not cc
+        if three is not None:
+            want["SMSG Header"] = HEADER_ROWS["smsg3" if three else "smsg"]
+    if kind == "login":
+        want["Login Header"] = HEADER_ROWS["login"]
+    for name, rows_ in want.items():
+        got = tables.get(name)
+        if got != [tuple(c.replace(" ", "") for c in r) for r in rows_]:
+            ctx.violate("doc.header", key + f"|{name}", f"{rel}: {name} table of {cur.name} is {got}, the header form of this message is {rows_}", rel, i + 1)
+    for name in tables:
+        if name not in want and not (kind in ("smsg", "msg") and name == "SMSG Header"):
+            ctx.violate("doc.header", key + f"|extra|{name}", f"{rel}: header section of {cur.name} ({kind}) has an unexpected table `{name}`", rel, i + 1)
+    return 1
+
+
+COND_RE = re.compile(r"(is equal to|is not equal to|contains) `([^`]+)`")
+
+
+def check_conditions(ctx, cur, body_lines, rel, fn, ln0):
+    """the prose in front of each branch table: `If <var> is equal to `A` **or** ...`, `Else If ...`, `Else:` in definition order"""
+    want = []
+
+    def walk(ms):
+        for m_ in ms:
+            if isinstance(m_, wowm.If):
+                for n_, (conds, ams) in enumerate(m_.arms):
+                    op = {"==": "is equal to", "!=": "is not equal to", "&": "contains"}
+                    want.append(("Else If" if n_ else "If", conds[0][0], tuple((op[c[1]], c[2]) for c in conds)))
+                    walk(ams)
+                    # nested statements of an arm come before the next arm
+                if m_.else_members:
+                    want.append(("Else", None, ()))
+                    walk(m_.else_members)
+            elif isinstance(m_, wowm.Optional):
+                pass
+    walk(cur.members)
+    got = []
+    k = 0
+    while k < len(body_lines):
+        l = body_lines[k]
+        if l.startswith("If ") or l.startswith("Else If "):
+            head = "Else If" if l.startswith("Else") else "If"
+            var = l[len(head):].split()[0]
+            text = l
+            while not text.rstrip().endswith(":") and k + 1 < len(body_lines):
+                k += 1
+                text += " " + body_lines[k]
+            got.append((head, var, tuple(COND_RE.findall(text))))
+        elif l.startswith("Else:"):
+            got.append(("Else", None, ()))
+        k += 1
+    if got != want:
+        d = next((f"branch {n_ + 1}: documented {g}, the definition has {w}" for n_, (g, w) in enumerate(zip(got, want)) if g != w), f"{len(got)} documented branches, the definition has {len(want)}")
+        ctx.violate("doc.conditions", f"page|{fn}|{cur.name}|{cur.line}|conditions", f"{rel}: branch conditions of {cur.name}: {short(d)}", rel, ln0)
+    return len(want)
+
+
+TYPE_LINE = re.compile(r"^The basic type is `(\w+)`, a (\d+) byte \((\d+) bit\)")
+ENUM_ROW = re.compile(r"^\| `([^`]+)` \| (-?\d+) \(0x(-?[0-9A-Fa-f]+)\) \|")
+
+
+def check_definer_section(ctx, cur, lines, i, rel, fn):
+    """`### Type` / `### Enumerators` of an enum or flag page section against the definition: base type and its width, one row per enumerator
+    in declaration order with its value (decimal and hexadecimal)"""
+    key = f"page|{fn}|{cur.name}|{cur.line}|definer"
+    j = i + 1
+    tl = TYPE_LINE.match(lines[j]) if j < len(lines) else None
+    width = wowm.BASIC_INT[cur.base][0] if cur.base in wowm.BASIC_INT else None
+    if not tl or tl.group(1) != cur.base or (width is not None and (int(tl.group(2)) != width or int(tl.group(3)) != 8 * width)):
+        ctx.violate("doc.definer-table", key + "|type", f"{rel}: type line of {cur.name} is `{lines[j] if j < len(lines) else ''}`, the definition has base type {cur.base} ({width} bytes)", rel, j + 1)
+    rows = []
+    while j < len(lines) and not lines[j].startswith("## ") and not lines[j].startswith("Used in"):
+        m = ENUM_ROW.match(lines[j])
+        if m:
+            rows.append((m.group(1), int(m.group(2)), int(m.group(3), 16)))
+        j += 1
+    want = [(f[0], f[1]) for f in cur.fields]
+    def hex_ok(r):
+        # a negative value is rendered in two's complement (the printer formats an i128); any width of at least the base type is accepted
+        return r[1] == r[2] or (r[1] < 0 and any(r[2] == r[1] + (1 << k) for k in (8, 16, 32, 64, 128)))
+    if [(r[0], r[1]) for r in rows] != want or any(not hex_ok(r) for r in rows):
+        d = next((f"row {n_ + 1}: documented {g}, the definition has {w}" for n_, (g, w) in enumerate(zip(rows, want)) if (g[0], g[1]) != w or not hex_ok(g)), f"{len(rows)} rows, the definition has {len(want)} enumerators")
+        ctx.violate("doc.definer-table", key + "|rows", f"{rel}: enumerator table of {cur.name}: {short(d)}", rel, i + 1)
+    return 1
+
+
 class Index:
     def __init__(self, model):
         self.by_pos = {}
@@ -100,14 +395,18 @@ class Index:
             self.by_pos.setdefault((o.ast.file, o.ast.line), o.ast)
         self.model = model
         self.obj_of = {}
+        self.objs_of = {}
+        self.section = None  # versions named by the current `## Client Version ..` / `## Protocol Version ..` heading of the page being read
         for o in model.objects:
             self.obj_of.setdefault(id(o.ast), o)
+            self.objs_of.setdefault(id(o.ast), []).append(o)
         self.tests = {}
         for t in model.tests:
             self.tests.setdefault(t.name, []).append(t)
 
 
 def compare_block(ctx, rule, key, text, file, line, idx, where_file, where_line):
+    idx.block_ok = False
     src = idx.by_pos.get((file, line))
     if src is None:
         ctx.violate(rule, key + "|link", f"{where_file}: the link {file}:{line} does not point at a definition", where_file, where_line)
@@ -121,6 +420,7 @@ def compare_block(ctx, rule, key, text, file, line, idx, where_file, where_line)
         ctx.violate(rule, key + "|count", f"{where_file}: the embedded block holds {len(objs)} definitions", where_file, where_line)
         return src
     d = first_diff(sig(objs[0]), sig(src))
+    idx.block_ok = not d
     if d:
         ctx.violate(rule, key + "|differs", f"{where_file}: embedded definition of {src.name} differs from {file}:{line} — {d}", where_file, where_line)
     return src
@@ -190,19 +490,33 @@ def example_annotation_problem(idx, cur, data, rows, rel, compare_bytes=True):
 def check_pages(ctx, idx):
     global n_decoded
     n_decoded = 0
+    n_extra[:] = [0, 0, 0, 0, 0]
     n_blocks = n_tables = n_examples = 0
     pages = sorted(f for f in os.listdir(DOCS) if f.endswith(".md"))
     for fn in pages:
         rel = f"wowm_language/src/docs/{fn}"
         lines = open(os.path.join(DOCS, fn), encoding="utf-8").read().split("\n")
         i = 0
+        idx.section = None
         cur = None
         cur_examples = 0
         while i < len(lines):
             l = lines[i]
+            if l.startswith("## Client Version ") or l.startswith("## Protocol Version "):
+                try:
+                    if l.startswith("## Client"):
+                        idx.section = ("world", [wowm.parse_world_version(x.strip()[len("Client Version "):]) for x in l[3:].split(",")])
+                    else:
+                        idx.section = ("login", [(x.strip()[len("Protocol Version "):]) for x in l[3:].split(",")])
+                        idx.section = ("login", ["*" if x == "*" else int(x) for x in idx.section[1]])
+                except (wowm.WowmError, ValueError):
+                    idx.section = None
             m = LINK.search(l) if l.startswith("Autogenerated from `wowm` file at") else None
-            if m and i + 1 < len(lines) and lines[i + 1].startswith("```rust,ignore"):
-                j = i + 2
+            b0 = i + 1
+            while m and b0 < len(lines) and not lines[b0].strip():
+                b0 += 1  # definer pages put a blank line between the link and the block
+            if m and b0 < len(lines) and lines[b0].startswith("```rust,ignore"):
+                j = b0 + 1
                 blk = []
                 while j < len(lines) and not lines[j].startswith("```"):
                     blk.append(lines[j])
@@ -226,6 +540,12 @@ def check_pages(ctx, idx):
                 n_tables += 1
                 want = flat_members(cur.members, [])
                 names = [c[0][3] for c in rows]
+                n_cells = 0
+                if names == [m_.name for m_ in want] and idx.block_ok:
+                    sizes = check_row_cells(ctx, idx, cur, rows, want, rel, fn)
+                    n_extra[0] += len(sizes or {})
+                    n_extra[1] += check_offsets(ctx, idx, cur, rows, want, sizes, rel, fn)
+                    n_extra[2] += check_conditions(ctx, cur, lines[i + 1:j], rel, fn, i + 1)
                 if names != [m_.name for m_ in want]:
                     ctx.violate("doc.table", f"page|{fn}|{cur.name}|{cur.line}|members", f"{rel}: body table of {cur.name} lists members {short(names)}, the definition has {short([m_.name for m_ in want])}", rel, i + 1)
                 else:
@@ -237,6 +557,10 @@ def check_pages(ctx, idx):
                                 ctx.violate("doc.table", f"page|{fn}|{cur.name}|{cur.line}|{m_.name}|size", f"{rel}: body table of {cur.name}: `{m_.name}` ({m_.ty}) is documented as `{cells[1]}`, it is {size} / {endian}", rel, ln)
                 i = j
                 continue
+            if l.startswith("### Header") and cur is not None and isinstance(cur, wowm.Container) and idx.block_ok:
+                n_extra[3] += check_header_section(ctx, idx, cur, lines, i, rel, fn)
+            if l.startswith("### Type") and cur is not None and isinstance(cur, wowm.Definer) and idx.block_ok:
+                n_extra[4] += check_definer_section(ctx, cur, lines, i, rel, fn)
             if l.startswith("#### Example") and cur is not None:
                 j = i + 1
                 while j < len(lines) and not lines[j].startswith("```c"):
@@ -355,8 +679,13 @@ def run(ctx):
     idx = Index(model)
     pages, blocks, tables, examples = check_pages(ctx, idx)
     rs = check_rust_comments(ctx, idx)
-    ctx.rule("doc.parseback", blocks + rs, floor=3777, note=f"{blocks} wowm blocks in {pages} doc pages + {rs} Rust doc comments parsed back and compared with the linked source object")
+    ctx.rule("doc.parseback", blocks + rs, floor=4153, note=f"{blocks} wowm blocks in {pages} doc pages + {rs} Rust doc comments parsed back and compared with the linked source object")
     ctx.rule("doc.table", tables, floor=1500, note="body tables: member names in definition order, size/endianness cells of fixed-width built-ins")
+    ctx.rule("doc.cells", n_extra[0], floor=N_CELLS, note="body table rows: the size cell is the constant size of the member's encoding by the independent size calculation (enums at their wire width, upcasts, structs, fixed arrays) or `-` / `?`, the type cell names the member's type")
+    ctx.rule("doc.offsets", n_extra[1], floor=N_OFFSETS, note="offset cells of the constant prefix (top-level members in front of the first conditional block and the first arm of a directly following if): start offset of the container kind plus the sizes in front; rows behind a branch are not compared")
+    ctx.rule("doc.conditions", n_extra[2], floor=N_CONDS, note="branch headings (`If x is equal to ..`, `Else If`, `Else:`) follow the definition's conditions: variable, operator, enumerators, order")
+    ctx.rule("doc.header", n_extra[3], floor=N_HEADERS, note="header section of message pages: the header tables of the container kind; the 2-or-3 byte size form exactly for server messages valid in 3.3.5 whose size is not constant")
+    ctx.rule("doc.definer-table", n_extra[4], floor=N_DEFINERS, note="enum / flag page sections: base type with its width and one row per enumerator in declaration order, decimal and hexadecimal value")
     ctx.rule("doc.examples", examples, floor=170, note=f"examples: byte groups concatenate to the wowm test bytes; {n_decoded} examples decoded along the definition: every present member annotated in order, fixed-width scalars on their own bytes")
     ctx.analysed.update({"programs": blocks + rs, "pages": pages})
     ctx.assume("prose, links and per-member comments are not compared; tags blocks are not part of the embedded definition")
